@@ -56,8 +56,6 @@ import (
 	apierrors "k8s.io/apimachinery/pkg/api/errors"
 	"k8s.io/apimachinery/pkg/api/resource"
 	metav1 "k8s.io/apimachinery/pkg/apis/meta/v1"
-	"k8s.io/apimachinery/pkg/fields"
-	"k8s.io/apimachinery/pkg/labels"
 	k8sruntime "k8s.io/apimachinery/pkg/runtime"
 	"k8s.io/apimachinery/pkg/runtime/schema"
 	"k8s.io/apimachinery/pkg/types"
@@ -101,7 +99,7 @@ const (
 	NP         = 3 // pods 1,2: to be bound; pod 3: pre-existing running consumer
 	NG         = 2
 	existIdx   = 7 // device index of a pre-existing reservation pod of group g is existIdx+g
-	detectSecs = 30
+	detectSecs = 180
 )
 
 // ------------------------------------------------------------------------------------------
@@ -142,11 +140,12 @@ type Step struct {
 }
 
 type Schedule struct {
-	ID    string `json:"id"`
-	Sig   string `json:"sig"`
-	Class string `json:"class"`
-	Cfg   Cfg    `json:"cfg"`
-	Steps []Step `json:"steps"`
+	ID     string          `json:"id"`
+	Sig    string          `json:"sig"`
+	Class  string          `json:"class"`
+	Cfg    Cfg             `json:"cfg"`
+	Steps  []Step          `json:"steps"`
+	Expect json.RawMessage `json:"expect,omitempty"` // the fault points the model expects (checked by the driver, not here)
 }
 
 // ------------------------------------------------------------------------------------------
@@ -178,12 +177,12 @@ type request struct {
 }
 
 type msg struct {
-	typ    msgType
-	a      *actor
-	req    *request
-	natErr bool
-	g      int
-	endErr bool
+	typ     msgType
+	a       *actor
+	req     *request
+	natErr  bool
+	g       int
+	endErr  bool
 	requeue bool
 }
 
@@ -204,21 +203,21 @@ type instance struct {
 }
 
 type World struct {
-	cfg    Cfg
-	scheme *k8sruntime.Scheme
-	base   client.WithWatch
-	gated  client.WithWatch
-	cs     *k8sfake.Clientset
-	inst   *instance
-	binds  []bindRec
-	nidx   int
-	msgs   chan msg
-	actors sync.Map // goroutine id -> *actor
-	mutex  map[int]int
-	tw     *tracefmt.Writer
+	cfg           Cfg
+	scheme        *k8sruntime.Scheme
+	base          client.WithWatch
+	gated         client.WithWatch
+	cs            *k8sfake.Clientset
+	inst          *instance
+	binds         []bindRec
+	nidx          int
+	msgs          chan msg
+	actors        sync.Map // goroutine id -> *actor
+	mutex         map[int]int
+	tw            *tracefmt.Writer
 	useK8sPlugins bool
-	desync int
-	calllog []map[string]any
+	desync        int
+	calllog       []map[string]any
 }
 
 var errInjected = errors.New("verif: injected API failure")
@@ -588,8 +587,8 @@ func newWorld(cfg Cfg, scheme *k8sruntime.Scheme, tw *tracefmt.Writer) *World {
 		objs = append(objs, pod)
 		br := &v1alpha2.BindRequest{
 			ObjectMeta: metav1.ObjectMeta{Name: brName(p), Namespace: podNS},
-			Spec: v1alpha2.BindRequestSpec{PodName: podName(p), SelectedNode: nodeName, BackoffLimit: ptr.To(int32(5))},
-			Status: v1alpha2.BindRequestStatus{Phase: v1alpha2.BindRequestPhasePending},
+			Spec:       v1alpha2.BindRequestSpec{PodName: podName(p), SelectedNode: nodeName, BackoffLimit: ptr.To(int32(5))},
+			Status:     v1alpha2.BindRequestStatus{Phase: v1alpha2.BindRequestPhasePending},
 		}
 		switch {
 		case isFracKind(kind):
@@ -1108,11 +1107,11 @@ func runSchedule(s Schedule, scheme *k8sruntime.Scheme, tw *tracefmt.Writer) *Wo
 // ------------------------------------------------------------------------------------------
 
 var kindCfgs = map[string]Cfg{
-	"whole": {Kinds: []string{"whole", "none", "none"}, Grps: [][]int{{}, {}, {}}},
-	"fracn": {Kinds: []string{"frac", "none", "none"}, Grps: [][]int{{1}, {}, {}}},
-	"fracx": {Kinds: []string{"frac", "none", "cons"}, Grps: [][]int{{1}, {}, {1}}},
-	"multi": {Kinds: []string{"multi", "none", "cons"}, Grps: [][]int{{1, 2}, {}, {1}}},
-	"dra":   {Kinds: []string{"dra", "none", "none"}, Grps: [][]int{{}, {}, {}}},
+	"whole":  {Kinds: []string{"whole", "none", "none"}, Grps: [][]int{{}, {}, {}}},
+	"fracn":  {Kinds: []string{"frac", "none", "none"}, Grps: [][]int{{1}, {}, {}}},
+	"fracx":  {Kinds: []string{"frac", "none", "cons"}, Grps: [][]int{{1}, {}, {1}}},
+	"multi":  {Kinds: []string{"multi", "none", "cons"}, Grps: [][]int{{1, 2}, {}, {1}}},
+	"dra":    {Kinds: []string{"dra", "none", "none"}, Grps: [][]int{{}, {}, {}}},
 	"multin": {Kinds: []string{"multi", "none", "none"}, Grps: [][]int{{1, 2}, {}, {}}},
 	// two consumers of the same group (concurrency, C17)
 	"pairn": {Kinds: []string{"frac", "frac", "none"}, Grps: [][]int{{1}, {1}, {}}},
@@ -1150,7 +1149,6 @@ func randomSchedule(r *rand.Rand, i int, kmax map[string]int) Schedule {
 	two := cfg.Kinds[1] != "none"
 	var sigFaults []string
 	alive := map[int]bool{1: true, 2: two, 3: cfg.Kinds[2] != "none"}
-	brAlive := map[int]bool{1: true, 2: two}
 	nFaulty := 1 + r.Intn(2)
 	for round := 0; round < nFaulty; round++ {
 		// optional environment event before the attempt
@@ -1206,7 +1204,6 @@ func randomSchedule(r *rand.Rand, i int, kmax map[string]int) Schedule {
 		}
 		s.Steps = append(s.Steps, st, Step{N: "run", Acts: []Act{{A: 3, T: "syncnode"}}}, Step{N: "check"})
 	}
-	_ = brAlive
 	s.Steps = append(s.Steps, Step{N: "final"})
 	s.Sig = fmt.Sprintf("kind=%s fault=random[%s]", kind, strings.Join(sigFaults, ","))
 	return s
@@ -1282,6 +1279,4 @@ func main() {
 		fatal("%v", err)
 	}
 	fmt.Printf("{\"schedules\":%d,\"events\":%d,\"skipped_order_entries\":%d}\n", n, tw.Count(), desync)
-	_ = labels.Everything
-	_ = fields.Everything
 }
